@@ -96,7 +96,7 @@ def classify_known(case, meta, finding):
 
 def mk(rules, root, w, stream, offset=1, full=False, extra=None):
     sh = shape(rules, root)
-    flags = (1 if full else 0) | (2 if sh != 'plain' else 0)
+    flags = (1 if full and sh == 'plain' else 0) | (2 if sh != 'plain' else 0)
     meta = {"stream": stream, "shape": sh}
     if extra:
         meta.update(extra)
@@ -318,3 +318,44 @@ MANIFEST = {
              "models tied to the code by the differential run, the Go driver; Go's append growth is arbitrary in the theorems."),
     "ref": "DESIGN.md section 6, C07; notes/C07.md",
 }
+
+
+# ---------------------------------------------------------------- entry point
+# lib/core.py reports model/implementation differences without an oracle violation ("no-failing-input-found") only when NO case
+# at all violates the oracle — and the K1 witness always does.  The cases attributed to K1 are therefore taken out of the oracle's
+# violation list before the verdict (they stay in the list of differences: the corpus witness of K1 is one, so the KNOWN-FINDING
+# line is still printed) — otherwise a change that only breaks the correspondence (e.g. a result handler that stops copying its
+# scratch slice: values are damaged BEFORE they are returned) would go unreported.
+K1_TEXTS = set()
+
+
+def main(tier, seed, replay=None):
+    import sys
+    import core
+    mod = sys.modules[__name__]
+    for case, meta in core.corpus_cases(ID):
+        if meta.get("shape") == "k1":
+            K1_TEXTS.add(case)
+    gen = mod.generate
+
+    def generate_and_remember(rng, tier_):
+        out = gen(rng, tier_)
+        for case, meta in out:
+            if meta.get("shape") == "k1":
+                K1_TEXTS.add(case)
+        return out
+    mod.generate = generate_and_remember
+    orig = core.run_model
+
+    def run_model(pid, imports, harness, pairs, **kw):
+        d, v, det, err = orig(pid, imports, harness, pairs, **kw)
+        known = [i for i in v if pairs[i][0] in K1_TEXTS]
+        d = sorted(set(d) | set(known))
+        v = [i for i in v if pairs[i][0] not in K1_TEXTS]
+        return d, v, det, err
+    core.run_model = run_model
+    try:
+        return core.standard_check(mod, tier, seed, replay)
+    finally:
+        core.run_model = orig
+        mod.generate = gen
